@@ -152,6 +152,25 @@ Theorem C18_start_establishes_files_recorded : forall s, files_only (disk s) -> 
 Proof. exact restart_files_recorded. Qed.
 Print Assumptions C18_start_establishes_files_recorded.
 
+(* "... reports as completed (and therefore announces and offers to peers) has its file": the work list of the DHT
+   announcer, SQLiteStorage.get_blobs_to_announce(), under BOTH settings of announce_head_and_sd_only, read right
+   after a start: every announced hash has its file; with "announce everything" it is exactly the files present;
+   the head/sd-only list is the marked (should_announce) part of it. *)
+Theorem C18_announced_have_files : forall head s h, files_only (disk s) ->
+  In h (announce_list head (restart s)) -> valid_name h = true /\ is_file (disk (restart s)) h = true.
+Proof. exact announced_have_files. Qed.
+Print Assumptions C18_announced_have_files.
+
+Theorem C18_announce_all_exact : forall s h, files_only (disk s) ->
+  (In h (announce_list false (restart s)) <-> valid_name h = true /\ is_file (disk s) h = true).
+Proof. exact announce_all_exact. Qed.
+Print Assumptions C18_announce_all_exact.
+
+Theorem C18_announce_head_subset : forall s h, In h (announce_list true s) ->
+  In h (announce_list false s) /\ mem h (marked s) = true.
+Proof. exact announce_head_subset. Qed.
+Print Assumptions C18_announce_head_subset.
+
 (* config.save_blobs (part of the state, chosen again at each restart) plays no part in what a start does; every
    theorem above quantifies over all states, hence over both settings. *)
 Theorem C18_save_setting_irrelevant : forall s b,
@@ -226,4 +245,15 @@ Example C18_memory_only_blob :
   let t := run s [ORestartSave true; OComplete hA 5] in
   (db_status (db s) hA, is_file (disk s) hA, completed s, db_status (db t) hA, is_file (disk t) hA, completed t)
   = (Some Pending, false, [], Some Finished, true, [hA]).
+Proof. vm_compute. reflexivity. Qed.
+
+(* two blobs downloaded, the file of one removed behind the daemon's back, restart: only the other is announced;
+   a published stream's sd blob is the only one on the head/sd-only list, and leaves it when its file vanishes *)
+Example C18_announce_after_file_removed :
+  let s := run init [OComplete hA 5; OComplete hB 6; OExtRemove hA; ORestart] in
+  let t := run init [OPublish [(hA, 5)] (hB, 7); ORestart] in
+  let u := run t [OExtRemove hB; ORestart] in
+  (announce_list false s, announce_list true s, announce_list true t, length (announce_list false t),
+   announce_list true u, announce_list false u)
+  = ([hB], [], [hB], 2%nat, [], [hA]).
 Proof. vm_compute. reflexivity. Qed.
